@@ -223,6 +223,8 @@ class Monitors:
                 record["db_after"] = len(database)
                 record["budget"] = problem.evaluation_counter.maximum
                 record["counter_after"] = problem.evaluation_counter.current
+                if state["start"] is not None and counter.current < state["start"] + record["events"]:
+                    record["counter_decreased"] = True  # reset after the last new iteration
                 record["library"] = self
                 record["problem"] = problem
                 if added:
@@ -839,6 +841,11 @@ def judge_run(case, index, run, problem, model, out, calls, terminations, keys_b
                           expected={"result after": term_names})
         elif isinstance(exc, TypeError) and "_get_result() missing" in str(exc):
             rep.violation(f"C03:exception-instead-of-result:early-stopping-result-signature-mismatch:{lib}",
+                          "4: a result is returned", witness, observed=f"{type(exc).__name__}: {str(exc)[:300]}",
+                          expected={"result after": term_names})
+        elif type(exc).__name__ == "ForcedStop" and term_names:
+            # a criterion raised in an NLopt callback was lost because a later callback succeeded
+            rep.violation("C03:exception-instead-of-result:ForcedStop:Nlopt:termination-criterion-lost-in-nlopt",
                           "4: a result is returned", witness, observed=f"{type(exc).__name__}: {str(exc)[:300]}",
                           expected={"result after": term_names})
         elif term_names or is_doe:
